@@ -114,6 +114,10 @@ class GeckoUdpSocket:
 
     def queue_send(self, protocol_handler: GeckoUdpProtocolHandler, destination: tuple):
         """Queue a message to be sent by the worker thread"""
+        # Remember where this is going even before it is transmitted, so that a
+        # retry that fires first is not queued without a destination
+        if protocol_handler.last_destination is None:
+            protocol_handler.last_destination = destination
         with self._lock:
             self._send_handlers.append((protocol_handler, destination))
 
